@@ -112,6 +112,29 @@ def run(ctx):
         got = np.asarray(get_boolean_mask(t, S).to_array()).astype(bool).tolist()
         ctx.check("mask", got == (c > 0).tolist(), "get_boolean_mask/coverage>0", "mask %r != coverage>0 %r" % (got, (c > 0).tolist()), dict(case, got=got), nt)
         unchanged(t, before, "get_boolean_mask", case)
+        # the same through the Geometry object of a one-contig genome (its own implementations of pileup, mask, merge, sort, all-vs-all Jaccard)
+        if ivs and vrng.random() < 0.35:
+            geo = Geometry({"chr1": S})
+            s_g = sorted(ivs)
+            got = np.asarray(geo.get_pileup(table(s_g)).to_dict()["chr1"]).tolist()
+            ctx.check("pileup", got == c.tolist(), "Geometry.get_pileup/coverage", "Geometry pileup %r != coverage %r" % (got, c.tolist()), dict(case, got=got, expected=c.tolist()), nt and (nt, "geo"))
+            got = np.asarray(geo.get_mask(table(s_g)).to_dict()["chr1"]).astype(bool).tolist()
+            ctx.check("mask", got == (c > 0).tolist(), "Geometry.get_mask/coverage>0", "Geometry mask %r != coverage>0" % (got,), dict(case, got=got), nt and (nt, "geo"))
+            d_ = case["distances"][0]
+            mg = geo.merge_intervals(table(s_g), d_)
+            got = list(zip(np.asarray(mg.start).tolist(), np.asarray(mg.stop).tolist()))
+            ctx.check("merge", got == merge_model(s_g, d_), "Geometry.merge_intervals/runs:d%s" % ("=0" if d_ == 0 else ">0"), "Geometry merge(d=%d) of %r gave %r" % (d_, s_g, got), dict(case, d=d_, got=got), nt and (nt, "geo", d_))
+            sh_ = list(ivs)
+            vrng.shuffle(sh_)
+            so = geo.sort(table(sh_))
+            got = list(zip(np.asarray(so.start).tolist(), np.asarray(so.stop).tolist()))
+            ctx.check("sort", sorted(got) == sorted(ivs) and all(a[0] <= b[0] for a, b in zip(got, got[1:])), "Geometry.sort/order(start)", "Geometry.sort of %r gave %r" % (sh_, got), dict(case, got=got), nt and (nt, "geosort"))
+            if len(ivs) >= 2:
+                halves = [sorted(ivs[:len(ivs) // 2]), sorted(ivs[len(ivs) // 2:]), sorted(ivs)]
+                mat = np.asarray(geo.jaccard_all_vs_all([table(h) for h in halves]))
+                covs = [cov(h, S) > 0 for h in halves]
+                expm = [[(0.0 if i == j else ((covs[i] & covs[j]).sum() / max(1, (covs[i] | covs[j]).sum()))) for j in range(3)] for i in range(3)]
+                ctx.check("jaccard", bool(np.allclose(mat, np.array(expm), atol=1e-12)), "Geometry.jaccard_all_vs_all/values", "all-vs-all Jaccard %r, per-base model %r" % (mat.tolist(), expm), dict(case, got=mat.tolist(), expected=expm), nt and (nt, "geojac"))
         # merge (sorted input as documented)
         if ivs:
             s_ivs = sorted(ivs, key=lambda x: x[0])
